@@ -20,6 +20,12 @@ pub struct GenProject {
     pub files: Vec<GenFile>,
     /// indices of the files named on the command line
     pub named: Vec<usize>,
+    /// definitions made to fail SSA conversion (with a CFG-stage warning on the way)
+    pub failing_defs: usize,
+    /// failing templates that a later template may instantiate
+    pub failing_templates: Vec<String>,
+    /// files that start with a byte order mark
+    pub bom_files: usize,
 }
 
 #[derive(Clone, Copy, Debug)]
@@ -129,6 +135,9 @@ pub fn gen_project(t: &mut Tape, o: ProjOpts) -> GenProject {
     let mut asts: Vec<(String, File)> = Vec::new();
     // what each file can see: (helpers, templates)
     let mut visible: Vec<(Vec<(String, usize)>, Vec<TemplateSig>)> = Vec::new();
+    let mut failing_defs = 0;
+    let mut failing_templates = Vec::new();
+    let mut bom_files = 0;
     for i in 0..nfiles {
         let mut f = File::default();
         f.version = Some((2, [0u64, 1][t.below(2)], t.below(5) as u64));
@@ -158,6 +167,10 @@ pub fn gen_project(t: &mut Tape, o: ProjOpts) -> GenProject {
                 // a definition that fails during SSA conversion (read of a declared but never
                 // assigned variable) and also has a CFG-stage warning (shadowed parameter or local)
                 make_failing(&mut d, &mut ids);
+                failing_defs += 1;
+                if template {
+                    failing_templates.push(name.clone());
+                }
             }
             if template {
                 if let Some(sig) = template_sig(&d) {
@@ -192,6 +205,7 @@ pub fn gen_project(t: &mut Tape, o: ProjOpts) -> GenProject {
         if o.bom_chance > 0 && t.chance(o.bom_chance) {
             // part of the leading trivia, so all recorded spans are offsets into the real file
             trivia[0] = format!("{}{}", '\u{FEFF}', trivia[0]);
+            bom_files += 1;
         }
         let r = render(&printed, &trivia);
         files.push(GenFile { rel, ast, printed, r, always_paren });
@@ -206,7 +220,7 @@ pub fn gen_project(t: &mut Tape, o: ProjOpts) -> GenProject {
     if t.chance(60) {
         named.reverse();
     }
-    GenProject { files, named }
+    GenProject { files, named, failing_defs, failing_templates, bom_files }
 }
 
 impl GenProject {
